@@ -14,7 +14,6 @@ import Manticore.Lemmas.SmbMirror
 import Manticore.Lemmas.SmbLoopsMirror
 import Manticore.Lemmas.SmbStd
 import Manticore.Lemmas.SmbLocality
-import Manticore.Lemmas.SmbHead
 import Manticore.Props.C04.Direct
 namespace Manticore.C04
 open Manticore Manticore.SmbIR Manticore.Gen.SmbCommands
@@ -48,16 +47,13 @@ theorem andx_consumed :
       (commands.filter (·.isAndX)).length = 16 := by decide +kernel
 
 /-- the recorded round-trip findings, decided on the extracted programs: exactly these commands and
-    reasons (KNOWN_FINDINGS.txt lists the same keys): the two 43-byte entry windows, which are MS-CIFS's size, and
-    WriteRequest, whose Marshal appends the marshalled `Data` to the command bytes ahead of the parameter block
-    (`write_request_never_decodes`).  The
-    other thirteen entries this list once had were repaired in the repository (fixes/C04-*.diff): a field never
+    reasons (KNOWN_FINDINGS.txt lists the same keys): the two 43-byte entry windows, which are MS-CIFS's size.  The
+    other fourteen entries this list once had were repaired in the repository (fixes/C04-*.diff): a field never
     marshalled or never unmarshalled, nested strings decoded from the start of the block, an optional field under a
     word count never reached or not reset.  A new structural defect in another command changes this list. -/
 theorem known_roundtrip_findings :
     commands.filterMap (fun c => (knownRtKind c).map (fun k => (k, c.name))) =
-      [(.fixedEntrySize, "FindResponse"), (.fixedEntrySize, "FindUniqueResponse"),
-       (.fieldAheadOfBlocks, "WriteRequest")] := by decide +kernel
+      [(.fixedEntrySize, "FindResponse"), (.fixedEntrySize, "FindUniqueResponse")] := by decide +kernel
 
 /-- **every buffer is sized by the field documented to size it**: the (command, buffer, length) and
     (command, list, count) relations the regenerated unmarshal programs rely on are exactly the pinned
@@ -323,10 +319,10 @@ theorem slot_locality (C : Codecs) (c : Cmd) (f : String) (lo hi : Nat) (h : slo
     a.length = b.length ∧ ∀ i, (i < lo ∨ hi ≤ i) → a[i]? = b[i]? :=
   slot_locality_core C c f lo hi h env v a b ha hb
 
-/-- the theorem applies to 224 (command, field) pairs of this tree (206 before the layout was read through `layoutZ`:
+/-- the theorem applies to 228 (command, field) pairs of this tree (224 before WriteRequest's marshal program became straight-line, fixes/C04-writerequest-data-block.diff; 206 before the layout was read through `layoutZ`:
     the fixed-width fields in front of a `range` loop over an integer array, and NegotiateResponse's, are among them) -/
 theorem slot_ranges_defined :
-    (commands.flatMap (fun c => (c.fields.map (·.1)).filterMap (fun f => slotRange c f))).length = 224 := by
+    (commands.flatMap (fun c => (c.fields.map (·.1)).filterMap (fun f => slotRange c f))).length = 228 := by
   decide +kernel
 
 /-! ### non-vacuity: a concrete command and concrete field values satisfy every hypothesis -/
@@ -543,41 +539,6 @@ example : consistent Manticore.SmbCodecs.std cmd_SessionSetupAndxResponse sessio
   simp [intsFit, relationsHold, cmd_SessionSetupAndxResponse, sessionRespEnv, prologueEnv, Env.get, Env.set, wordCountOf,
     andxWords, andxField, defaultAndX, evalEnv]
   exact ⟨hax, htup _ (by simp), htup _ (by simp), htup _ (by simp)⟩
-
-/-! ### WriteRequest: the buffer goes out ahead of the parameter block (finding `field-ahead-of-blocks`) -/
-
-/-- **WriteRequest never decodes its own encoding** (finding `field-ahead-of-blocks:WriteRequest`).  `Marshal` appends
-    `c.Data.Marshal()` (`01 len16 bytes`) to `marshalledCommand` itself instead of to `rawDataContent`, so the bytes go
-    out as `01 len16 bytes | 05 FID Count Offset Estimate | 0000` — the string ahead of the parameter block, the data
-    block empty.  `Unmarshal` takes the format byte 0x01 for the word count, the two length bytes for the parameter
-    words, and fails at the guard of its second parameter.  For **all** field values for which `Marshal` succeeds and
-    all receivers: `Unmarshal` of the result is an error.  (Not a hypothesis of the round-trip theorems any more:
-    `consistent` says nothing about where the bytes go; the oracle of the differential run reports the command under
-    this key, `known_roundtrip_findings`.) -/
-theorem write_request_never_decodes (env0 env : Env) (bs : Bytes)
-    (h : encodeCmd Manticore.SmbCodecs.std cmd_WriteRequest env = .ok bs) :
-    decodeCmd Manticore.SmbCodecs.std cmd_WriteRequest env0 bs = .err :=
-  head_fmt1_never_decodes cmd_WriteRequest rfl "Data" "FID" "CountOfBytesToWrite" "WriteOffsetInBytes"
-    "EstimateOfRemainingBytesToBeWritten" .le .le .le .le rfl _ rfl env0 env bs h
-
-/-- `WriteRequest{FID: 0x1234, CountOfBytesToWrite: 2, Data: "ab"}`: the witness of KNOWN_FINDINGS.txt -/
-def writeReqEnv : Env :=
-  [("FID", .n 0x1234), ("CountOfBytesToWrite", .n 2), ("WriteOffsetInBytes", .n 0),
-   ("EstimateOfRemainingBytesToBeWritten", .n 0), ("Data", .t ([1, 2], [[0x61, 0x62]]))]
-
-/-- the hypothesis of `write_request_never_decodes` is satisfiable: these values are encoded, string first -/
-example : encodeCmd Manticore.SmbCodecs.std cmd_WriteRequest writeReqEnv =
-    .ok [0x01, 0x02, 0x00, 0x61, 0x62, 0x05, 0x34, 0x12, 0x02, 0x00, 0, 0, 0, 0, 0, 0, 0x00, 0x00] := by decide +kernel
-example : decodeCmd Manticore.SmbCodecs.std cmd_WriteRequest []
-    [0x01, 0x02, 0x00, 0x61, 0x62, 0x05, 0x34, 0x12, 0x02, 0x00, 0, 0, 0, 0, 0, 0, 0x00, 0x00] = .err := by decide +kernel
-/-- the values are internally consistent: the round-trip specification is not silent on them -/
-example : consistent Manticore.SmbCodecs.std cmd_WriteRequest writeReqEnv = true := by
-  have hrun : runM Manticore.SmbCodecs.std cmd_WriteRequest writeReqEnv =
-      .ok { P := [0x34, 0x12, 2, 0, 0, 0, 0, 0, 0, 0], D := [], head := [1, 2, 0, 0x61, 0x62], env := writeReqEnv } := by rfl
-  have h1 : tupOk Manticore.SmbCodecs.std "SMB_STRING" ([1, 2], [[0x61, 0x62]]) = true := by decide +kernel
-  unfold consistent
-  rw [hrun]
-  simp [intsFit, relationsHold, cmd_WriteRequest, writeReqEnv, Env.get, h1, wordCountOf, andxWords, andxOk]
 
 /-! ### RenameRequest: a nested read whose error and count are dropped -/
 
